@@ -85,6 +85,18 @@ theorem MPSC_TryPush_c1_pin (pIndex : BitVec 64) (producerLimit : BitVec 64) :
 theorem MPSC_TryPush_c2_pin (m_producerIndex_CompareAndSwap_pIndex_pIndex_2 : Bool) :
     Gen.MpscSites.MPSC_TryPush_c2 m_producerIndex_CompareAndSwap_pIndex_pIndex_2 = m_producerIndex_CompareAndSwap_pIndex_pIndex_2 := by pin_tac Gen.MpscSites.MPSC_TryPush_c2
 
+theorem MPSC_TryPush_s0_pin (result : BitVec 8) :
+    Gen.MpscSites.MPSC_TryPush_s0 result = (result == (0#8)) := by pin_tac Gen.MpscSites.MPSC_TryPush_s0
+
+theorem MPSC_TryPush_s1_pin (result : BitVec 8) :
+    Gen.MpscSites.MPSC_TryPush_s1 result = (result == (1#8)) := by pin_tac Gen.MpscSites.MPSC_TryPush_s1
+
+theorem MPSC_TryPush_s2_pin (result : BitVec 8) :
+    Gen.MpscSites.MPSC_TryPush_s2 result = (result == (2#8)) := by pin_tac Gen.MpscSites.MPSC_TryPush_s2
+
+theorem MPSC_TryPush_s3_pin (result : BitVec 8) :
+    Gen.MpscSites.MPSC_TryPush_s3 result = (result == (3#8)) := by pin_tac Gen.MpscSites.MPSC_TryPush_s3
+
 theorem MPSC_TryPush_x0_pin (pIndex : BitVec 64) :
     Gen.MpscSites.MPSC_TryPush_x0 pIndex = (pIndex + (2#64)) := by pin_tac Gen.MpscSites.MPSC_TryPush_x0
 
@@ -268,6 +280,10 @@ theorem siteParams_pin : Gen.MpscSites.siteParams = [("NewMPSC_c0", ["initialCap
   ("MPSC_TryPush_c0", ["pIndex"]),
   ("MPSC_TryPush_c1", ["pIndex", "producerLimit"]),
   ("MPSC_TryPush_c2", ["m_producerIndex_CompareAndSwap_pIndex_pIndex_2"]),
+  ("MPSC_TryPush_s0", ["result"]),
+  ("MPSC_TryPush_s1", ["result"]),
+  ("MPSC_TryPush_s2", ["result"]),
+  ("MPSC_TryPush_s3", ["result"]),
   ("MPSC_TryPush_x0", ["pIndex"]),
   ("MPSC_TryPush_a0", ["m_producerLimit_Load"]),
   ("MPSC_TryPush_a1", ["m_producerIndex_Load"]),
@@ -323,22 +339,22 @@ theorem siteParams_pin : Gen.MpscSites.siteParams = [("NewMPSC_c0", ["initialCap
   ("nextArrayOffset_r0", ["mask"]),
   ("modifiedCalcElementOffset_r0", ["index", "mask"])] := by rfl
 
-theorem shape_pin : Gen.MpscSites.shape = [("newBuffer", [0, 0, 0, 1, 0, 0]),
-  ("NewMPSC", [3, 0, 6, 1, 0, 2]),
-  ("MPSC_getNextBufferSize", [1, 0, 3, 1, 0, 0]),
-  ("MPSC_getCurrentBufferCapacity", [1, 0, 0, 2, 0, 0]),
-  ("MPSC_availableInQueue", [0, 0, 0, 1, 0, 0]),
-  ("MPSC_capacity", [0, 0, 0, 1, 0, 0]),
-  ("MPSC_TryPush", [3, 0, 6, 3, 0, 1]),
-  ("MPSC_pushSlowPath", [4, 0, 6, 1, 0, 2]),
-  ("MPSC_TryPop", [4, 0, 8, 3, 0, 1]),
-  ("MPSC_Size", [2, 0, 4, 2, 0, 0]),
-  ("MPSC_IsEmpty", [0, 0, 0, 1, 0, 0]),
-  ("MPSC_getNextBuffer", [1, 0, 2, 1, 0, 0]),
-  ("MPSC_newBufferTryPush", [1, 0, 2, 1, 0, 1]),
-  ("MPSC_newBufferAndOffset", [0, 0, 1, 1, 0, 0]),
-  ("MPSC_resize", [1, 0, 7, 0, 0, 2]),
-  ("nextArrayOffset", [0, 0, 0, 1, 0, 1]),
-  ("modifiedCalcElementOffset", [0, 0, 0, 1, 0, 0])] := by rfl
+theorem shape_pin : Gen.MpscSites.shape = [("newBuffer", [0, 0, 0, 1, 0, 0, 0]),
+  ("NewMPSC", [3, 0, 6, 1, 0, 2, 0]),
+  ("MPSC_getNextBufferSize", [1, 0, 3, 1, 0, 0, 0]),
+  ("MPSC_getCurrentBufferCapacity", [1, 0, 0, 2, 0, 0, 0]),
+  ("MPSC_availableInQueue", [0, 0, 0, 1, 0, 0, 0]),
+  ("MPSC_capacity", [0, 0, 0, 1, 0, 0, 0]),
+  ("MPSC_TryPush", [3, 0, 6, 3, 0, 1, 4]),
+  ("MPSC_pushSlowPath", [4, 0, 6, 1, 0, 2, 0]),
+  ("MPSC_TryPop", [4, 0, 8, 3, 0, 1, 0]),
+  ("MPSC_Size", [2, 0, 4, 2, 0, 0, 0]),
+  ("MPSC_IsEmpty", [0, 0, 0, 1, 0, 0, 0]),
+  ("MPSC_getNextBuffer", [1, 0, 2, 1, 0, 0, 0]),
+  ("MPSC_newBufferTryPush", [1, 0, 2, 1, 0, 1, 0]),
+  ("MPSC_newBufferAndOffset", [0, 0, 1, 1, 0, 0, 0]),
+  ("MPSC_resize", [1, 0, 7, 0, 0, 2, 0]),
+  ("nextArrayOffset", [0, 0, 0, 1, 0, 1, 0]),
+  ("modifiedCalcElementOffset", [0, 0, 0, 1, 0, 0, 0])] := by rfl
 
 end OtterVerif.Pin.MpscSites
